@@ -23,6 +23,7 @@ MixesC11 == {<<"flushw", "flushw", "resume">>, <<"flushw", "pause", "resume">>, 
 MixesC11q == {<<"flushw", "flushw", "resume">>}
 EditsC29 == {D2m}
 EditsC11 == {Nil, F1, D0, D1}
+EditsC11q == {Nil, F1, D0}
 \* export of harness scripts: two commands, full budgets
 MixesX2 == {<<x, y>> : x, y \in {"pause", "resume", "flushw", "flushn", "reset", "terminate", "restart"}}
 MixesX3 == MixesC29
@@ -42,4 +43,10 @@ MixesPersistQ == {<<"pause", "pause", "restart">>, <<"reset", "terminate", "rest
 MixesPersist2 == {<<x, y, "restart">> : x, y \in {"pause", "resume", "reset", "terminate"}}
 MixesPersistSim == {<<x, y, "restart">> : x, y \in {"pause", "resume", "reset", "terminate", "flushw"}}
                    \cup {<<x, y, "restart", z>> : x, y, z \in {"pause", "resume", "flushw"}}
+\* C11, interrupts: a root that grows from one entry to two on both sides in a cycle that a pause / shutdown interrupts
+MixesInterrupt == {<<"pause", "resume", "flushw">>, <<"restart", "flushw", "flushw">>}
+MixesInterruptQ == {<<"pause", "resume", "flushw">>}
+EditsInterruptQ == {D2, D0}
+EditsInterrupt == {D2, D0, Nil, F1}
+NeverIntrTransitioning == NeverInterrupted("transitioning")
 ====
